@@ -311,6 +311,10 @@ func GenC16Session(seed uint64) *Scenario {
 	rng := NewPRNG(seed, "scenario/C16")
 	sc := &Scenario{Prop: "C16", Kind: "uci", Seed: seed, Checks: []string{"c16", "c12", "c05"}, PollUs: 50}
 	sc.Cost = GenCost(rng, 20000, false)
+	optNow := map[string]string{}
+	for _, o := range EngineOptions {
+		optNow[o.Name] = o.Default
+	}
 	rate := []float64{0.05, 0.15, 0.3, 0.5}[rng.Intn(4)]
 	maxD := maxDepthFor(sc.Cost.Every)
 	if maxD > 4 {
@@ -356,7 +360,9 @@ func GenC16Session(seed uint64) *Scenario {
 			if o.Default == "true" {
 				v = "false"
 			}
-			emit(20, fmt.Sprintf("setoption name %s value %s", o.Name, v))
+			if emit(20, fmt.Sprintf("setoption name %s value %s", o.Name, v)) {
+				optNow[o.Name] = v
+			}
 		}
 	}
 	probe()
@@ -434,6 +440,29 @@ func GenC16Session(seed uint64) *Scenario {
 			selfLimit = false
 		}
 		if emit(int64(rng.Intn(300)), goLine) {
+			// an option changed while the search runs (the protocol asks a GUI
+			// to do that only while the engine waits - so it is one more line
+			// the engine must survive)
+			if rng.Chance(0.12) {
+				name := "Use_Hash"
+				if rng.Chance(0.6) {
+					var checks []string
+					for _, o := range EngineOptions {
+						if o.Type == "check" && o.Name != "Use_Book" {
+							checks = append(checks, o.Name)
+						}
+					}
+					name = checks[rng.Intn(len(checks))]
+				}
+				v := "true"
+				if strings.EqualFold(optNow[name], "true") {
+					v = "false"
+				}
+				optNow[name] = v
+				st := add(rng.LogRange(1, 5000), "damaged", fmt.Sprintf("setoption name %s value %s", name, v))
+				st.Orig, st.Fault = "isready", "F6_setoption_while_searching"
+				probe()
+			}
 			// damaged lines while the search runs
 			if rng.Chance(0.4) {
 				junk := []string{"isready", "position startpos", "setoption name Hash value 4", "ponderhit", "stop", "debug on", "register later", "ucinewgame"}[rng.Intn(8)]
